@@ -12,7 +12,26 @@ CACHE = os.path.join(ROOT, ".cache")
 LEAN = os.path.join(ROOT, "lean")
 HARNESS = os.path.join(ROOT, "harness")
 WORK = os.path.join(ROOT, "work")
-REPO = "/repo"
+# The code under test. Checks registered in MANIFEST.json always use /repo; VERIF_REPO exists only so that
+# seeded mutants can be evaluated in a scratch worktree while other builds keep using /repo.
+REPO = os.environ.get("VERIF_REPO", "/repo").rstrip("/")
+if REPO != "/repo":
+    _tag = hashlib.sha1(REPO.encode()).hexdigest()[:10]
+    _alt = os.path.join(CACHE, "harness-" + _tag)
+    if not os.path.isdir(_alt):
+        import shutil
+        shutil.copytree(HARNESS, _alt, ignore=shutil.ignore_patterns("target"))
+    else:
+        import shutil
+        for _fn in os.listdir(HARNESS):
+            _src = os.path.join(HARNESS, _fn)
+            if os.path.isfile(_src):
+                shutil.copy(_src, os.path.join(_alt, _fn))
+        shutil.copytree(os.path.join(HARNESS, "src"), os.path.join(_alt, "src"), dirs_exist_ok=True)
+    _ct = open(os.path.join(HARNESS, "Cargo.toml")).read().replace('"/repo/', '"%s/' % REPO)
+    open(os.path.join(_alt, "Cargo.toml"), "w").write(_ct)
+    HARNESS = _alt
+    CACHE = os.path.join(CACHE, "alt-" + _tag)
 
 ENV = dict(os.environ)
 ENV.update({"CARGO_NET_OFFLINE": "true", "RUSTFLAGS": "--cfg lexical_verif -Awarnings"})
